@@ -2,6 +2,7 @@ package main
 
 import (
 	"fmt"
+	"strings"
 	"sync"
 )
 
@@ -78,5 +79,65 @@ func init() {
 		for b := 1; b <= 5; b++ {
 			fmt.Printf("budget %d: %d programs\n", b, len(enumPrograms(b, knownExclusions())))
 		}
+	}}
+}
+
+// SHAPECHECK (internal tool): renders every hand-written shape and builds both renderings natively (no subject compiler),
+// so a typo in a template is found in seconds instead of silently removing its batch from a run.
+func init() {
+	checks["SHAPECHECK"] = &checkT{run: func(rs *runState) {
+		var progs []*Program
+		add := func(prefix string, shs []shape) {
+			for i, sh := range shs {
+				progs = append(progs, mkShapeProgram(prefix+itoa(1000+i), sh))
+			}
+		}
+		add("S", consumerShapes)
+		add("Y", bystanderShapes)
+		add("Z", closureInGeneratorShapes)
+		add("O", optimiserBait)
+		progs = append(progs, rangeShapePrograms()...)
+		progs = append(progs, iteratorValuePrograms()...)
+		progs = append(progs, delegationPrograms()...)
+		for i, inj := range injections {
+			name := "J" + itoa(1000+i)
+			p := &Program{Name: name, Profile: "c12-fixed-host", Tags: []string{"inject:" + inj.name}}
+			body := []*Stmt{evS(1, v("a")), yS(v("a")), {K: "raw", Raw: strings.ReplaceAll(inj.stmt, "$N", name)}, yS(bin("+", v("a"), lit(1)))}
+			p.Decls = []*Decl{{Kind: "gen", Name: name + "G", Params: []Param{{"a", "int"}}, Elem: "int", Body: body}}
+			if inj.decls != "" {
+				p.Decls = append(p.Decls, &Decl{Kind: "raw", Raw: strings.ReplaceAll(inj.decls, "$N", name)})
+			}
+			progs = append(progs, p)
+		}
+		bad := 0
+		var wg sync.WaitGroup
+		var mu sync.Mutex
+		sem := make(chan struct{}, 12)
+		for _, p := range progs {
+			wg.Add(1)
+			go func(p *Program) {
+				defer wg.Done()
+				sem <- struct{}{}
+				defer func() { <-sem }()
+				b, err := rs.tools.newBatch([]*Program{p}, batchOpts{style: importStyles[0]})
+				if err != nil {
+					rs.infraProblem(err.Error())
+					return
+				}
+				defer b.cleanup()
+				f := b.render()
+				if f == nil {
+					f = rs.tools.validate(b)
+				}
+				if f != nil {
+					mu.Lock()
+					bad++
+					fmt.Printf("SHAPE BUG %s %v: %s\n", p.Name, p.Tags, lastLines(f.Diag, 8))
+					mu.Unlock()
+				}
+			}(p)
+		}
+		wg.Wait()
+		fmt.Printf("SHAPECHECK: %d shapes, %d broken\n", len(progs), bad)
 	}}
 }
